@@ -16,7 +16,11 @@ Ev(e) == l <= Len(Log) /\ Log[l].e = e /\ l' = l + 1
 TRot == Ev("Rot") /\ Log[l].shape /\ Log[l].q <= 1 /\ UNCHANGED seen
 TObs == /\ Ev("Obs") /\ LET ev == Log[l] IN ev.kind \in Kinds /\ ev.cls \in Classes /\ ev.fin /\ ev.q <= 1
         /\ seen' = seen \cup {<<Log[l].kind, Log[l].cls>>}
-Next == TRot \/ TObs
+\* beyond the listed properties (a trace of its own; a rejection is a note): Normalized has norm one, is parallel to the original,
+\* leaves it untouched and equals Normalize in place; Angle(v, axis) of a vector at polar angle theta is theta, symmetric
+TAux == /\ Ev("Aux") /\ LET ev == Log[l] IN ev.dim \in 1..6 /\ ev.size /\ ev.normq <= 1 /\ ev.kept /\ ev.same /\ ev.angq \in -1..1 /\ ev.sym
+        /\ UNCHANGED seen
+Next == TRot \/ TObs \/ TAux
 Spec == Init /\ [][Next]_vars
 TraceAccepted == TLCGet("stats").diameter - 1 = Len(Log)
 \* every axis class was exercised for the axis-relative clauses
